@@ -254,10 +254,18 @@ def _worker(args):
     faulthandler.dump_traceback_later(max(60, deadline - time.time() + 120), exit=True)
     prop = load_prop(prop_name)
     agg = Agg()
-    for k in ks:
+    stop_flag = os.environ.get('VERIF_STOP_FLAG')      # (sensitivity tools only: stop the batch soon after the first failing run)
+    for i_, k in enumerate(ks):
         if time.time() > deadline:
             break
+        if stop_flag and i_ % 8 == 0 and os.path.exists(stop_flag):
+            break
         scenario, res = one_run(prop, seed, k, tier)
+        if stop_flag and res.violations and not res.discarded:
+            try:
+                open(stop_flag, 'w').close()
+            except OSError:
+                pass
         agg.add(k, scenario, res, keep_sample=(k < 3))
         if k in want_digests:
             agg.digests[k] = digest(scenario, res)
@@ -655,7 +663,8 @@ def run_check(prop_name, tier, replay=None, digests=None, quiet=False, runs_over
           (prop.ID, completed, n_runs, agg.discarded, agg.evals, len(agg.nontrivial), len(agg.states),
            len(agg.interleavings), wall, dict(agg.faults)))
     if completed < n_runs:
-        print('NOTE: wall-clock cap reached after %d of %d runs' % (completed, n_runs))
+        print('NOTE: %s after %d of %d runs' % ('stopped after the first failing run (VERIF_STOP_FLAG)' if os.environ.get('VERIF_STOP_FLAG')
+                                                 else 'wall-clock cap reached', completed, n_runs))
     if reported:
         return 1
     if unconfirmed or agg.failing:
